@@ -14,7 +14,9 @@ PROP = dict(
                    "results are supplied per call); what the real factory makes of them is the container model's business (C01-C03, C09).",
         subs=[dict(sub="registry", n_quick=4000, n_thorough=300000)],
         thorough_seeds=1,
-        rule="operation trees: depth <= 6, 4-40 operations (+ forced lookups/re-attempts after every failing creation, + final probes of all "
+        rule="exhaustive small scope first: EVERY forest of <= 3 (quick) / <= 4 (thorough) operations over 2 names (lookup x allowEarly x "
+             "early factory fails/succeeds; doGetComponent x early x fails/succeeds x every body), each followed by probes of both names "
+             "(11 664 / 380 304 histories); then random operation trees: depth <= 6, 4-40 operations (+ forced lookups/re-attempts after every failing creation, + final probes of all "
              "4 names in half of the cases), 4 names with 40% bias to names currently in creation (circular references), creation bodies fail "
              "with probability 0.2, early-reference factories fail with probability 0.15, lookups allow early references with probability "
              "2/3, returned objects reuse earlier labels with probability 1/4; plus n/20 histories on the real factory (single / chain / "
